@@ -19,7 +19,8 @@ CONSTANTS NK,        \* keys are 0..NK-1
           Es,        \* element size (selects the minimum table size)
           MaxB,      \* bound on buckets claimed by the boundedness invariant
           MaxPa,     \* hasher panics are injected at invocation 1..MaxPa of every operation (0 = none)
-          TRem       \* template start states (see Init); {} = only the unallocated table
+          TRem,      \* template start states (see Init); {} = only the unallocated table
+          FixedPlan  \* 0 = all hash plans over Poss x Tags; n > 0 = one spread-and-collide plan (see PlanSet)
 
 Keys == 0..(NK - 1)
 VARIABLES t, A, hp, chk
@@ -32,7 +33,10 @@ TEv(op, k) == [op |-> op, t |-> 1, u |-> 0, k |-> k, id |-> 1, v |-> 1, vid |-> 
 RECURSIVE RunLawful(_, _, _)
 RunLawful(tt, es, plan) == IF es = <<>> THEN tt ELSE RunLawful(MapOp(Head(es), tt, plan, LawfulEnv).t, Tail(es), plan)
 Template(plan, m) == RunLawful(Singleton(Es), [i \in 1..(NK + m) |-> IF i <= NK THEN TEv("insert", i - 1) ELSE TEv("remove", i - NK - 1)], plan)
-Init == /\ hp \in [Keys -> Hashes]
+\* FixedPlan = 0: every plan over Hashes; n > 0: the single plan pos(k) = n for odd k, 0 for even k, tag 0 (two home positions, one of them unaligned, so
+\* that elements are displaced past each other and the in-place rehash moves and swaps them)
+PlanSet == IF FixedPlan = 0 THEN [Keys -> Hashes] ELSE {[k \in Keys |-> [pos |-> IF k % 2 = 1 THEN FixedPlan ELSE 0, tag |-> 0]]}
+Init == /\ hp \in PlanSet
         /\ t \in {Singleton(Es)} \cup {Template(hp, m) : m \in TRem}
         /\ A = Elems(t) /\ chk = TRUE
 
